@@ -453,7 +453,7 @@ def reject_cases():
     cases = []
     for nrep in (1, 2, 3):
         for kind in ('dup-name', 'nonstring-name', 'unsorted-idl', 'dup-idl', 'length-mismatch', 'length-mismatch-cancel', 'short', 'multi-ens',
-                     'multi-ens-prefix', 'multi-ens-bare-prefix',
+                     'multi-ens-prefix', 'multi-ens-bare-prefix', 'multi-ens-sandwiched',
                      'names-samples-mismatch', 'idl-count-mismatch', 'decreasing-range', 'bad-idl-type', 'float-idl', 'float-idl-integer-valued',
                      'complex-samples'):
             for pos in ('first', 'middle', 'last'):
@@ -720,6 +720,12 @@ def run_case(case):
                 names[-1] = 'AB|r1'
         else:
             names = ['A'] + ['A%d' % (i + 1) for i in range(1, nrep)] if which == 0 else ['A%d' % (i + 1) for i in range(nrep - 1)] + ['A']
+    elif what == 'multi-ens-sandwiched':
+        # the foreign ensemble sorts BETWEEN two chains of the other ensemble (smallest and largest name belong together)
+        if nrep < 3:
+            applicable = False
+        else:
+            names = {'first': ['A', 'AB|r1', 'A|r2'], 'middle': ['A|r1', 'Ab', 'A'], 'last': ['A|r7', 'A', 'A0|r1']}[pos]
     elif what == 'names-samples-mismatch':
         names = names + ['A|r9']
     elif what == 'idl-count-mismatch':
@@ -769,7 +775,7 @@ def run_case(case):
     def valid_request():
         v = pe.Obs(valid_samples, valid_names, idl=[(np.array(c) if carrier == 'ndarray' else list(c)) for c in valid_cfgs])
         return compare.wf_any(v, pe) or (None if {n: list(v.idl[n]) for n in v.idl} == dict(zip(valid_names, valid_cfgs)) else 'configuration lists %s' % v.idl)
-    for with_idl in ((True, False) if what in ('dup-name', 'nonstring-name', 'short', 'multi-ens', 'multi-ens-prefix', 'multi-ens-bare-prefix', 'names-samples-mismatch', 'complex-samples') else (True,)):
+    for with_idl in ((True, False) if what in ('dup-name', 'nonstring-name', 'short', 'multi-ens', 'multi-ens-prefix', 'multi-ens-bare-prefix', 'multi-ens-sandwiched', 'names-samples-mismatch', 'complex-samples') else (True,)):
         idl = [carry(c, i) for i, c in enumerate(cfgs)] if with_idl else None
         pre = valid_request()
         if pre:
